@@ -3,7 +3,7 @@
 (* pattern of a concrete series; winsorize / Spearman: enumeration.            *)
 EXTENDS Composite, Json
 
-CONSTANTS HLMaxLen, SpLen, ValSet, Kinds
+CONSTANTS HLMaxLen, SpLen, ValSet, Kinds, RampLens
 ElemDef == ValSet \cup {NULL}
 
 VARIABLES kind, s, t, mp, len, above, pc, n, last_n, i
@@ -15,24 +15,29 @@ Init ==
     /\ \/ /\ kind = "half_life"
           /\ s \in Seqs(ElemDef, HLMaxLen) /\ t = <<>>
           /\ mp \in {-1} \cup 1..Len(s)
+       \* a persistent series (a ramp) of a length beyond the enumeration bound, under EVERY null
+       \* mask: gaps inside the series make lags beyond the number of valid observations meaningful
+       \/ /\ kind = "half_life_ramp"
+          /\ \E L \in RampLens : s \in {[j \in 1..L |-> IF j \in M THEN NULL ELSE j] : M \in SUBSET (1..L)}
+          /\ t = <<>> /\ mp \in {1, 2}
        \/ /\ kind = "winsor"
           /\ s \in Seqs(ElemDef, MaxLen) /\ t = <<>> /\ mp = 0
        \/ /\ kind = "spearman"
           /\ s \in Seqs(ElemDef, SpLen) /\ t \in [1..Len(s) -> ElemDef]
           /\ mp \in {-1, 0, 3}
     /\ len = Len(s)
-    /\ above = IF kind = "half_life"
+    /\ above = IF kind \in {"half_life", "half_life_ramp"}
                THEN [k \in 1..(Len(s) - 1) |-> AboveHalf(s, IF mp = -1 THEN Len(s) \div 2 ELSE mp, k)]
                ELSE [k \in 1..(Len(s) - 1) |-> FALSE]
-    /\ pc = IF kind = "half_life" /\ Len(s) > 0 THEN "dbl" ELSE "done"
+    /\ pc = IF kind \in {"half_life", "half_life_ramp"} /\ Len(s) > 0 THEN "dbl" ELSE "done"
     /\ n = 0 /\ last_n = 0 /\ i = 0
 
 Next == hl!Next /\ UNCHANGED <<kind, s, t, mp>>
 Spec == Init /\ [][Next]_vars /\ WF_vars(Next)
 
 NoUnderflow == hl!NoUnderflow
-InRange     == kind = "half_life" => hl!InRange
-ResultLaw   == kind = "half_life" => hl!ResultLaw
+InRange     == kind \in {"half_life", "half_life_ramp"} => hl!InRange
+ResultLaw   == kind \in {"half_life", "half_life_ramp"} => hl!ResultLaw
 Terminates  == hl!Terminates
 
 SpearmanLaw == (kind = "spearman" /\ mp = -1) => SpearmanMonotoneInvariant(s, t) /\ SpearmanMonotoneInvariant(t, s)
@@ -42,7 +47,7 @@ Ks == {0, 1, 3}
 EmitComposite ==
     pc = "done" =>
       PrintT(<<"REPLAY", ToJson(
-        CASE kind = "half_life" ->
+        CASE kind \in {"half_life", "half_life_ramp"} ->
                [op |-> "half_life", s |-> s, mp |-> mp,
                 \* the exact lag is required of monotone patterns only; otherwise the range 0..len-1
                 want |-> IF Len(s) >= 2 /\ hl!Monotone
